@@ -5,6 +5,7 @@
 //!   pay sess=<hex32> prng=<hex32> hash=<hex32> height=<u32> hops=<seed:scid:fee:cltv>,.. secret=<hex32|-> total=<u64>
 //!       meta=<hex|-> tlvs=<type:hex;..|-> keysend=<hex32|-> tamper=<hop,hop|-> tstep=<k>
 //!   raw noise=<hex> ad=<hex32|-> hops=<ss:payload>,..            (payload: serialized, with its length prefix)
+//!   peel ss=<hex32> ad=<hex32|-> data=<hex> hmac=<hex32>
 //!   fail sess=<hex32> hops=<seed:scid>,.. at=<i> code=<u16> data=<hex> holds=<t0,..,ti> tstep=<k|0>
 //!   fulfill sess=<hex32> hops=<seed:scid>,.. holds=<t0,..>
 use std::collections::HashMap;
@@ -506,6 +507,17 @@ fn do_raw(a: &HashMap<String, String>) -> String {
 	}
 }
 
+/// `peel ss=<hex32> ad=<hex32|-> data=<hex> hmac=<hex32>`: one `decode_next_hop` on explicit bytes.
+fn do_peel(a: &HashMap<String, String>) -> String {
+	let ad = opt_hex(&a["ad"]).map(|v| arr32(&hex(&v)));
+	let r = match vh::decode_next_hop_raw(arr32(&a["ss"]), &unhex(&a["data"]), arr32(&a["hmac"]), ad) {
+		Err(e) => format!("E:{}", e),
+		Ok((p, None)) => format!("F:{}", hex(&p)),
+		Ok((p, Some((nh, nd)))) => format!("N:{}:{}:{}", hex(&p), hex(&nd), hex(&nh)),
+	};
+	format!("{{\"kind\":\"peel\",\"res\":{}}}", js(&r))
+}
+
 fn parse_path(a: &HashMap<String, String>) -> (Vec<Node>, Path) {
 	let mut nodes = Vec::new();
 	let mut hops = Vec::new();
@@ -668,6 +680,7 @@ fn main() {
 			),
 			"pay" => do_pay(&a),
 			"raw" => do_raw(&a),
+			"peel" => do_peel(&a),
 			"fail" => do_fail(&a),
 			"decode" => do_decode(&a),
 			"fulfill" => do_fulfill(&a),
